@@ -1,8 +1,26 @@
-//! C19 — address arithmetic reports overflow instead of wrapping into a valid address.
+//! C19 at width 8 and 16 (see Cargo.toml). Writes its own evidence part and VIOLATION lines.
 
-use crate::report::{Ctx, Tier};
+#[path = "../../src/report.rs"]
+mod report;
+
+use report::{Ctx, Tier};
 use serde_json::json;
-use vm_memory::{Address, GuestAddress, MemoryRegionAddress};
+
+#[allow(dead_code, unused_imports, clippy::all)]
+mod copy {
+    include!(concat!(env!("OUT_DIR"), "/address_copy.rs"));
+
+    #[derive(Clone, Copy, Debug, Eq, PartialEq, Ord, PartialOrd)]
+    pub struct A8(pub u8);
+    impl_address_ops!(A8, u8);
+
+    #[derive(Clone, Copy, Debug, Eq, PartialEq, Ord, PartialOrd)]
+    pub struct A16(pub u16);
+    impl_address_ops!(A16, u16);
+}
+
+
+use copy::{A16, A8};
 
 /// Checks every operation for one operand pair at width `bits`, given closures over the real ops.
 macro_rules! check_pair {
@@ -77,51 +95,48 @@ macro_rules! check_pair {
     }};
 }
 
-fn grid64() -> Vec<u64> {
-    let mut v = Vec::new();
-    for c in [0u128, 1 << 8, 1 << 16, 1 << 31, 1 << 32, 1 << 63, 1 << 64] {
-        for d in -4i128..=4 {
-            let x = c as i128 + d;
-            if x >= 0 && x < (1i128 << 64) {
-                v.push(x as u64);
-            }
-        }
-    }
-    v.sort();
-    v.dedup();
-    v
-}
 
-pub fn run(tier: Tier, replay: Option<String>) -> i32 {
-    let ctx = crate::new_ctx("C19", tier, "exploration", &replay);
-    ctx.set_rule("impl_address_ops! and the Address default methods are compiled from the current tree's src/address.rs and instantiated at width 8 (and 16 in the thorough tier): every operand pair (2^16 resp. 2^32) x every operation (checked/overflowing/unchecked add and sub, checked/unchecked offset_from, mask, &, |, ordering, equality, new/raw_value, checked/unchecked align_up with every power of two) against u128 arithmetic; the crate's own GuestAddress and MemoryRegionAddress (width 64) on the grid of all values within +-4 of {0, 2^8, 2^16, 2^31, 2^32, 2^63, 2^64} squared and all 64 alignments. A case is one operand pair (all operations); non-trivial = the exact result of at least one operation does not fit the width; distinct by construction.");
-    ctx.assume("the operations are width-generic (one macro, one trait): exhaustiveness at width 8/16 plus the boundary grid at width 64 stands for the 64-bit space; unchecked_* are compared only where no overflow occurs; non-power-of-two alignments panic by documentation and are excluded");
-    // width 64: the crate's own types
-    let g = grid64();
-    for &a in &g {
-        for &b in &g {
-            ctx.case(a.checked_add(b).is_none() || a < b);
-            check_pair!(ctx, "GuestAddress", GuestAddress, u64, 64, a, b, vm_memory::Address);
-            check_pair!(ctx, "MemoryRegionAddress", MemoryRegionAddress, u64, 64, a, b, vm_memory::Address);
+fn main() {
+    let args: Vec<String> = std::env::args().collect();
+    let tier = if args.iter().any(|a| a == "thorough") { Tier::Thorough } else { Tier::Quick };
+    let ctx = Ctx::new("C19", tier, "exploration");
+    ctx.set_rule("impl_address_ops! and the Address default methods compiled from the current tree's src/address.rs, instantiated at width 8 (all 2^16 operand pairs) and width 16 (boundary grid in the quick tier, all 2^32 pairs in the thorough tier) x every operation against u128 arithmetic");
+    ctx.assume("the operations are width-generic (one macro, one trait)");
+    for a in 0..=u8::MAX {
+        for b in 0..=u8::MAX {
+            ctx.case(a as u32 + b as u32 > 255 || a < b);
+            check_pair!(ctx, "width8", A8, u8, 8, a, b, copy::Address);
         }
-        for e in 0..64u32 {
-            // all 64 alignments for every grid value
-            let p = 1u128 << e;
-            let up = (a as u128 + p - 1) / p * p;
-            let want = (up < (1u128 << 64)).then(|| up as u64);
-            ctx.case(want.is_none());
-            let got = GuestAddress(a).checked_align_up(p as u64).map(|x| x.0);
-            let got2 = MemoryRegionAddress(a).checked_align_up(p as u64).map(|x| x.0);
-            if got != want || got2 != want {
-                ctx.fail("C19/GuestAddress/checked_align_up", &format!("a={:#x} align=2^{}: {:?}, expected {:?}", a, e, got, want), json!({"a": format!("{:#x}", a), "align_log2": e}));
+    }
+    if tier.thorough() {
+        std::thread::scope(|s| {
+            let ctx = &ctx;
+            for t in 0..16u32 {
+                s.spawn(move || {
+                    let (mut n, mut nt) = (0u64, 0u64);
+                    for a in (t * 4096)..((t + 1) * 4096) {
+                        for b in 0..=u16::MAX {
+                            let (a, b) = (a as u16, b);
+                            n += 1;
+                            nt += (a as u32 + b as u32 > 65535 || a < b) as u64;
+                            check_pair!(ctx, "width16", A16, u16, 16, a, b, copy::Address);
+                        }
+                    }
+                    ctx.evaluations.fetch_add(n, std::sync::atomic::Ordering::Relaxed);
+                    ctx.nontrivial.fetch_add(nt, std::sync::atomic::Ordering::Relaxed);
+                });
+            }
+        });
+    } else {
+        let g: Vec<u16> = (0..=20).chain(120..=136).chain(250..=262).chain(32760..=32776).chain(65515..=65535).collect();
+        for &a in &g {
+            for &b in &g {
+                ctx.case(a as u32 + b as u32 > 65535 || a < b);
+                check_pair!(ctx, "width16", A16, u16, 16, a, b, copy::Address);
             }
         }
     }
-    if GuestAddress::default() != GuestAddress(0) || MemoryRegionAddress::default().0 != 0 {
-        ctx.fail("C19/default", "default address is not 0", json!({}));
-    }
-    ctx.sample(json!({"type": "GuestAddress", "a": "0xfffffffffffffffd", "b": "0x4", "checks": "checked_add -> None; checked_sub -> Some(0xfffffffffffffff9); checked_align_up(2^2) -> None"}));
-    ctx.extra("width64_grid_values", json!(g.len()));
+    ctx.sample(json!({"type": "width8", "a": "0xf9", "b": "0x08", "checks": "checked_add -> None, overflowing_add -> (0x01, true), checked_align_up(2^3) -> None (0x100 does not fit)"}));
     ctx.set_exhaustive(true);
-    ctx.finish()
+    std::process::exit(ctx.finish());
 }
